@@ -10,8 +10,9 @@
    is not modified.
 
    usage : c08_driver <scratch-dir>          (CA files are written there)
-   input : "<kind> <mode> <entry> <ca> [silent_ms]"
+   input : "<kind> <mode> <entry> <ca> [silent_ms | announce=<name the server calls itself>]"
              kind  : valid wrongname partial expired notyet untrusted selfsigned fullwild silent
+                     announced (good chain, SAN = another name, which the server also announces as `from`)
                      chainok (root -> intermediate -> leaf) chainexp (root -> EXPIRED intermediate -> leaf)
              mode  : T (trust flag) | N (no callback) | A (callback accepts) | R (callback rejects)
                      | S<digits> (scripted answer per invocation: digit value is returned; 0 once exhausted)
@@ -21,6 +22,7 @@
    output: one line
      cfg=<mode>/<cb>/<hostflags>/<host>   what SSL_connect saw: SSL_get_verify_mode, callback!=NULL,
                                           X509_VERIFY_PARAM hostflags, host == jid domain (1/0, - none)
+     ph=<name>                            the pinned host name itself (only when a handshake started)
      v=<p><r>,...                         verify callback invocations: preverify_ok and returned value
      e=<depth>:<err>:<role>,...           X509 error depth/code of each invocation and the role of the certificate the
                                           verdict is about (X509_STORE_CTX_get_current_cert, read by the shim)
@@ -57,6 +59,7 @@
 
 #define DOMAIN "xmpp.example.com"
 #define JID "user@" DOMAIN
+#define OTHER_NAME "evil.example.net"
 
 static long now_ms(void)
 {
@@ -66,8 +69,8 @@ static long now_ms(void)
 }
 
 /* ------------------------------------------------------------------ certificates */
-enum { K_VALID, K_WRONGNAME, K_PARTIAL, K_EXPIRED, K_NOTYET, K_UNTRUSTED, K_SELFSIGNED, K_FULLWILD, K_CHAINOK, K_CHAINEXP, K_N };
-static const char *kind_names[] = {"valid", "wrongname", "partial", "expired", "notyet", "untrusted", "selfsigned", "fullwild", "chainok", "chainexp"};
+enum { K_VALID, K_WRONGNAME, K_PARTIAL, K_EXPIRED, K_NOTYET, K_UNTRUSTED, K_SELFSIGNED, K_FULLWILD, K_CHAINOK, K_CHAINEXP, K_ANNOUNCED, K_N };
+static const char *kind_names[] = {"valid", "wrongname", "partial", "expired", "notyet", "untrusted", "selfsigned", "fullwild", "chainok", "chainexp", "announced"};
 static EVP_PKEY *ca_key, *ca2_key, *leaf_key[K_N];
 static X509 *ca_crt, *ca2_crt, *leaf_crt[K_N];
 static EVP_PKEY *int_key, *intx_key;
@@ -139,6 +142,8 @@ static void mint_all(const char *dir)
     leaf_crt[K_CHAINEXP] = mk_cert("leaf-chainexp", "DNS:" DOMAIN, leaf_key[K_CHAINEXP], intx_crt, intx_key, -DAY, 30 * DAY, 0);
     chain_crt[K_CHAINOK] = int_crt;
     chain_crt[K_CHAINEXP] = intx_crt;
+    /* a perfectly good certificate - for another name, which the server also announces as `from` of its stream headers */
+    leaf_crt[K_ANNOUNCED] = mk_cert("leaf-announced", "DNS:" OTHER_NAME, leaf_key[K_ANNOUNCED], ca_crt, ca_key, -DAY, 30 * DAY, 0);
 
     mkdir(dir, 0755);
     snprintf(ca_file, sizeof ca_file, "%s/ca-%d.pem", dir, (int)getpid());
@@ -171,6 +176,7 @@ static struct {
     SSL *ssl;
     int handshakes;
     int mode, has_cb, host_match;
+    char host[128]; /* the reference identity the SSL object carries at SSL_connect time */
     unsigned hostflags;
     int (*orig_cb)(int, X509_STORE_CTX *);
     int nv, pre[MAXV], ret[MAXV], depth[MAXV], err[MAXV], role[MAXV];
@@ -222,6 +228,7 @@ int __wrap_SSL_connect(SSL *ssl)
         obs.has_cb = obs.orig_cb != NULL;
         obs.hostflags = X509_VERIFY_PARAM_get_hostflags(param);
         obs.host_match = host ? (strcmp(host, DOMAIN) == 0) : -1;
+        snprintf(obs.host, sizeof obs.host, "%s", host ? host : "-");
         SSL_set_verify(ssl, obs.mode, log_verify);
         obs.t_first = now_ms();
     }
@@ -309,6 +316,7 @@ static void conn_handler(xmpp_conn_t *conn, xmpp_conn_event_t status, int error,
 /* ------------------------------------------------------------------ server thread */
 typedef struct {
     int lfd, legacy, silent_ms, kind;
+    char from[128]; /* what the server calls itself in its stream headers */
     int hs; /* -1 not attempted, 0 failed, 1 ok */
     unsigned char clr[8192]; size_t nclr;   /* plaintext bytes received before the TLS handshake */
     unsigned char enc[8192]; size_t nenc;   /* application bytes received over TLS */
@@ -347,8 +355,14 @@ static void srv_send(int fd, SSL *ssl, const char *s)
     else if (write(fd, s, strlen(s)) < 0) { /* peer gone */ }
 }
 
-#define HDR "<?xml version='1.0'?><stream:stream xmlns='jabber:client' xmlns:stream='http://etherx.jabber.org/streams' " \
-            "id='c08' from='" DOMAIN "' version='1.0'>"
+#define HDR_FMT "<?xml version='1.0'?><stream:stream xmlns='jabber:client' xmlns:stream='http://etherx.jabber.org/streams' " \
+                "id='c08' from='%s' version='1.0'>%s"
+static void srv_hdr(int fd, SSL *ssl, const char *from, const char *rest)
+{
+    char b[1024];
+    snprintf(b, sizeof b, HDR_FMT, from, rest);
+    srv_send(fd, ssl, b);
+}
 
 static void *server_main(void *arg)
 {
@@ -369,7 +383,7 @@ static void *server_main(void *arg)
 
     if (!s->legacy) {
         if (!srv_until(fd, NULL, s->clr, &s->nclr, sizeof s->clr, &mark, "<stream:stream", ">")) goto out;
-        srv_send(fd, NULL, HDR "<stream:features><starttls xmlns='urn:ietf:params:xml:ns:xmpp-tls'/>"
+        srv_hdr(fd, NULL, s->from, "<stream:features><starttls xmlns='urn:ietf:params:xml:ns:xmpp-tls'/>"
                               "<mechanisms xmlns='urn:ietf:params:xml:ns:xmpp-sasl'><mechanism>PLAIN</mechanism></mechanisms>"
                               "</stream:features>");
         if (!srv_until(fd, NULL, s->clr, &s->nclr, sizeof s->clr, &mark, "<starttls", ">")) goto out;
@@ -404,13 +418,13 @@ static void *server_main(void *arg)
     s->hs = 1;
     mark = 0;
     if (!srv_until(fd, ssl, s->enc, &s->nenc, sizeof s->enc, &mark, "<stream:stream", ">")) goto out;
-    srv_send(fd, ssl, HDR "<stream:features><mechanisms xmlns='urn:ietf:params:xml:ns:xmpp-sasl'><mechanism>PLAIN</mechanism>"
+    srv_hdr(fd, ssl, s->from, "<stream:features><mechanisms xmlns='urn:ietf:params:xml:ns:xmpp-sasl'><mechanism>PLAIN</mechanism>"
                           "</mechanisms></stream:features>");
     if (!srv_until(fd, ssl, s->enc, &s->nenc, sizeof s->enc, &mark, "<auth", ">")) goto out;
     if (!srv_until(fd, ssl, s->enc, &s->nenc, sizeof s->enc, &mark, "</auth", ">")) goto out;
     srv_send(fd, ssl, "<success xmlns='urn:ietf:params:xml:ns:xmpp-sasl'/>");
     if (!srv_until(fd, ssl, s->enc, &s->nenc, sizeof s->enc, &mark, "<stream:stream", ">")) goto out;
-    srv_send(fd, ssl, HDR "<stream:features><bind xmlns='urn:ietf:params:xml:ns:xmpp-bind'/></stream:features>");
+    srv_hdr(fd, ssl, s->from, "<stream:features><bind xmlns='urn:ietf:params:xml:ns:xmpp-bind'/></stream:features>");
     if (!srv_until(fd, ssl, s->enc, &s->nenc, sizeof s->enc, &mark, "<iq", "</iq>")) goto out;
     srv_send(fd, ssl, "<iq type='result' id='_xmpp_bind1'><bind xmlns='urn:ietf:params:xml:ns:xmpp-bind'><jid>" JID
                       "/r</jid></bind></iq>");
@@ -497,7 +511,11 @@ int main(int argc, char **argv)
         char tc[64], tt[64], tr[64], w0[64], w1[64];
 
         if (!line[0] || line[0] == '#') { puts(""); continue; }
-        if (sscanf(line, "%31s %31s %31s %31s %d", kind_s, mode_s, entry_s, ca_s, &silent_ms) < 4) { puts("bad-input"); fflush(stdout); continue; }
+        char opt_s[160] = "", announce[128] = DOMAIN;
+        if (sscanf(line, "%31s %31s %31s %31s %159s", kind_s, mode_s, entry_s, ca_s, opt_s) < 4) { puts("bad-input"); fflush(stdout); continue; }
+        if (!strncmp(opt_s, "announce=", 9)) snprintf(announce, sizeof announce, "%s", opt_s + 9);
+        else silent_ms = atoi(opt_s);
+        if (!strcmp(kind_s, "announced") && strncmp(opt_s, "announce=", 9)) snprintf(announce, sizeof announce, "%s", OTHER_NAME);
         for (k = 0; k < K_N; k++) if (!strcmp(kind_s, kind_names[k])) kind = k;
         if (!strcmp(kind_s, "silent")) { kind = K_VALID; if (silent_ms <= 0) silent_ms = 1000; } else silent_ms = 0;
         if (kind < 0) { puts("bad-input"); fflush(stdout); continue; }
@@ -507,6 +525,7 @@ int main(int argc, char **argv)
         usr.script = mode_s;
         srv = calloc(1, sizeof *srv);
         srv->lfd = lfd; srv->legacy = !strncmp(entry_s, "legacy", 6); srv->silent_ms = silent_ms; srv->kind = kind; srv->hs = -1;
+        snprintf(srv->from, sizeof srv->from, "%s", announce);
         pthread_create(&th, NULL, server_main, srv);
 
         conn = xmpp_conn_new(ctx);
@@ -542,6 +561,7 @@ int main(int argc, char **argv)
         if (obs.handshakes) {
             printf("%d/%d/%u/", obs.mode, obs.has_cb, obs.hostflags);
             if (obs.host_match < 0) printf("-"); else printf("%d", obs.host_match);
+            printf(" ph=%s", obs.host);
         } else printf("none");
         printf(" v=");
         if (!obs.nv) printf("-");
